@@ -82,6 +82,12 @@ CHECKS.update({
             'schedules; the device transcript decides typing and refusal, the updater queue decides issue order, delivery/transmission times '
             'decide one-at-a-time, and every reply is traced to the request it answers.',
             'Reliable link; FP16 excluded; wire-ambiguous default values excluded; each thread owns a disjoint parameter subset for attribution.'),
+    'C05': ('exploration', 'DESIGN.md 3/C05', 'dsched+simcf',
+            'Hypothesis-generated variable lists/periods/histories (start, stop, delete, data packets with extreme raw bytes, reconnect + re-add) and a SyncLogger consumer thread under the deterministic scheduler; independent message and value decoders; device block state as reference',
+            'Configurations at every size/period boundary and create/append split point are offered to add_config; accepted ones are driven '
+            'through generated histories against a simulated log engine; the create/append messages, every data packet, the added/started '
+            'flags and the variable list after a re-add are compared with independent decoders and the device state.',
+            'Block-creation decoding for protocol >= 4; legacy only single-packet; raw-memory variables are a listed known finding.'),
 })
 
 ALL = ['C%02d' % i for i in range(1, 21)]
